@@ -34,30 +34,37 @@ def monthWalk : Nat → (Int → Int) → Int → Int → Int × Int
   | f+1, off, m, d =>
     if m == 1 then (m, d) else if d > off m then (m, d - off m) else monthWalk f off (m - 1) d
 
+/-- the three chunk loops: (seconds into the year, year, leap flag) -/
+def yearPart (T : Tbl) (s0 y0 : Int) : Int × Int × Int :=
+  let r1 := chunkLoop 8 T.s100 100 0 s0 y0 1
+  let r2 := chunkLoop 40 T.s4 4 1 r1.1 r1.2.1 r1.2.2
+  chunkLoop 8 T.s1 1 0 r2.1 r2.2.1 r2.2.2
+
+/-- shift to a 400-year aligned base year: (seconds, year) -/
+def shiftBase (T : Tbl) (unixTime utcOffset : Int) : Int × Int :=
+  if unixTime ≥ 0 then (unixTime - 10957 * T.secsPerDay + utcOffset, T.epochYear + 30)
+  else (unixTime + (146097 - 10957) * T.secsPerDay + utcOffset, T.epochYear - 370)
+
+/-- reduce into one 400-year cycle: Python floor `//`,`%`; Rust truncating `/`,`%` then the sign fix-up -/
+def reduce400 (rs : Bool) (T : Tbl) (seconds year : Int) : Int × Int :=
+  if rs then
+    let year := year + 400 * Int.tdiv seconds T.s400
+    let seconds := Int.tmod seconds T.s400
+    if seconds < 0 then (seconds + T.s400, year - 400) else (seconds, year)
+  else
+    let year := year + 400 * (seconds / T.s400)
+    let seconds := seconds % T.s400
+    if seconds < 0 then (seconds + T.s400, year - 400) else (seconds, year)
+
 def localTime (rs : Bool) (T : Tbl) (unixTime utcOffset : Int) : Int × Int × Int × Int × Int × Int :=
-  let year := T.epochYear
-  let seconds := unixTime
-  let (seconds, year) :=
-    if seconds ≥ 0 then (seconds - 10957 * T.secsPerDay, year + 30)
-    else (seconds + (146097 - 10957) * T.secsPerDay, year - 370)
-  let seconds := seconds + utcOffset
-  let (seconds, year) :=
-    if rs then
-      let year := year + 400 * Int.tdiv seconds T.s400
-      let seconds := Int.tmod seconds T.s400
-      if seconds < 0 then (seconds + T.s400, year - 400) else (seconds, year)
-    else
-      let year := year + 400 * (seconds / T.s400)
-      let seconds := seconds % T.s400
-      if seconds < 0 then (seconds + T.s400, year - 400) else (seconds, year)
-  let (seconds, year, leap) := chunkLoop 8 T.s100 100 0 seconds year 1
-  let (seconds, year, leap) := chunkLoop 40 T.s4 4 1 seconds year leap
-  let (seconds, year, leap) := chunkLoop 8 T.s1 1 0 seconds year leap
-  let day := seconds / T.secsPerDay + 1
-  let seconds := seconds % T.secsPerDay
-  let (month, day) := monthWalk 12 (if leap == 1 then T.moff1 else T.moff0) 12 day
+  let b := shiftBase T unixTime utcOffset
+  let c := reduce400 rs T b.1 b.2
+  let yp := yearPart T c.1 c.2
+  let day := yp.1 / T.secsPerDay + 1
+  let seconds := yp.1 % T.secsPerDay
+  let md := monthWalk 12 (if yp.2.2 == 1 then T.moff1 else T.moff0) 12 day
   let hour := seconds / T.secsPerHour
   let seconds := seconds % T.secsPerHour
-  (year, month, day, hour, seconds / T.secsPerMin, seconds % T.secsPerMin)
+  (yp.2.1, md.1, md.2, hour, seconds / T.secsPerMin, seconds % T.secsPerMin)
 
 end Pendulum.LocalTime
